@@ -836,6 +836,72 @@ async fn app_scenario(a: &ShardArgs, idx: u64) {
             }
             continue;
         }
+        if r.chance(1, 7) {
+            // a frame that is not for this outstation (another destination, or a foreign master) carrying a complete, valid
+            // DIRECT_OPERATE, then in the same read a header-only user-data frame (LEN 5) from the configured master to this
+            // outstation: the second frame carries nothing, so nothing is executed and nothing is answered
+            let frag = ra::B::request(ra::F_DIRECT_OPERATE, seq)
+                .prefixed16(41, 2, &[(r.below(3) as u16, vec![9, 0, 0])])
+                .done();
+            let segs = crate::verif::refcodec::transport::segment(&frag, r.below(64) as u8);
+            let other_dest = r.bool();
+            let (d1, s1) = if other_dest && !cfg.self_address {
+                (cfg.out_addr.wrapping_add(1 + r.below(3) as u16), cfg.master_addr)
+            } else {
+                (cfg.out_addr, 7u16)
+            };
+            let foreign_is_accepted = d1 == cfg.out_addr && cfg.any_master;
+            let mut wire = vec![];
+            for sgm in &segs {
+                wire.extend(rl::Frame::new(0xC4, d1, s1, sgm).encode());
+            }
+            let pre = r.below(3);
+            for _ in 0..=pre {
+                wire.extend(rl::Frame::new(0xC4, cfg.out_addr, cfg.master_addr, &[]).encode());
+            }
+            hist.push(format!(
+                "frame with a DIRECT_OPERATE for dest={d1} from src={s1}, then {} header-only user-data frame(s) for this outstation, one read",
+                pre + 1
+            ));
+            sim.send_bytes(&wire, &[]);
+            settle().await;
+            let rx = sim.collect();
+            let evs = sim.mock.take();
+            out::eval(1);
+            if !foreign_is_accepted {
+                let side: Vec<String> = evs
+                    .iter()
+                    .filter(|(_, e)| e.is_side_effect())
+                    .map(|(_, e)| format!("{e:?}"))
+                    .collect();
+                let answered = rx.iter().any(|x| {
+                    matches!(x, Rx::Fragment { bytes, .. } if bytes.len() >= 2 && bytes[1] == ra::F_RESPONSE)
+                });
+                if !side.is_empty() || answered {
+                    out::violation(
+                        P,
+                        "C07.app_stale_payload",
+                        &format!("{}|{state}", if d1 != cfg.out_addr { "other-destination" } else { "foreign-master" }),
+                        J::obj(vec![
+                            ("why", J::s(format!("the payload of a frame that was not for this outstation was {} when an empty frame for it followed: {side:?}", if side.is_empty() { "answered" } else { "executed" }))),
+                            ("state", J::s(state)),
+                            ("history", J::arr(hist.iter().cloned())),
+                            ("config", cfg.to_json()),
+                        ]),
+                        J::obj(vec![
+                            ("check", J::s("c07")),
+                            ("seed", J::U(a.seed)),
+                            ("shard", J::U(a.shard)),
+                            ("nshards", J::U(a.nshards)),
+                            ("scenario", J::U(idx)),
+                        ]),
+                    );
+                } else {
+                    out::count("empty_frame_after_rejected_frame_ignored", 1);
+                }
+            }
+            continue;
+        }
         let (frag, kind) = app_fragment(&mut r, seq);
         let (who, src, dest) = match r.below(6) {
             0 => ("configured-master", cfg.master_addr, cfg.out_addr),
